@@ -101,7 +101,36 @@ def execute_step(env, step):
         bp = make_bpseq(step["triples"])
     events.log("op.invoke", [op, via, backend, fault.get("kind")])
     try:
-        if op == "mapping_dot_bracket":
+        if op == "mapping_extract":
+            # the whole 3D -> 2D entry point (annotator.extract_secondary_structure): it asks for elements, the
+            # dot-bracket and the extended dot-bracket of one mapping, i.e. several conversions under the fault
+            from rnapolis import annotator
+
+            s2d, dbs = annotator.extract_secondary_structure(mapping.structure3d, None, False, False)
+            lines = s2d.dotBracket.split("\n")
+            obs["db"] = ["".join(lines[1::3]), "".join(lines[2::3])]
+            obs["triples"] = [[int(x.split()[0]), x.split()[1], int(x.split()[2])] for x in s2d.bpseq.split("\n")]
+            strands = []
+            for st in s2d.stems:
+                strands += [st.strand5p, st.strand3p]
+            for ss in s2d.singleStrands:
+                strands.append(ss.strand)
+            for h in s2d.hairpins:
+                strands.append(h.strand)
+            for l in s2d.loops:
+                strands += list(l.strands)
+            obs["consumer"] = {"strands": [[x.first, x.last, x.sequence, x.structure] for x in strands]}
+            ext = s2d.extendedDotBracket.split("\n")
+            nstrands = len(lines) // 3
+            block = len(ext) // max(1, nstrands)
+            rows = {}
+            for b in range(nstrands):
+                chunk = ext[b * block:(b + 1) * block]
+                for k, line in enumerate(chunk[2:]):
+                    lw, dbn = line.split(" ", 1)
+                    rows[k] = (lw, rows.get(k, (lw, ""))[1] + dbn)
+            obs["consumer"]["extended_rows"] = [[lw, dbn] for _, (lw, dbn) in sorted(rows.items())]
+        elif op == "mapping_dot_bracket":
             text = mapping.dot_bracket
             lines = text.split("\n")
             obs["db"] = ["".join(lines[1::3]), "".join(lines[2::3])]
